@@ -312,12 +312,21 @@ impl Node {
         serde_json::to_string(&self.data()).unwrap()
     }
 
+    /// forget the nodes an earlier run of this node's task built below it
+    /// (their tasks keep them; they are no longer part of what this node leads to)
+    pub fn clear_nodes(&self) -> Vec<Arc<Node>> {
+        let old = std::mem::take(&mut *self.nodes.write().unwrap());
+        if !old.is_empty() {
+            self.children.write().unwrap().retain(|c| {
+                c.typ != NodeOutputKind::Normal || !old.iter().any(|n| n.id() == c.node.id())
+            });
+        }
+        old
+    }
+
     /// rebuild the run-time nodes below this node from their stored description
     /// and hand every rebuilt node to `found`
     pub fn restore_nodes(self: &Arc<Self>, nodes: &[StoredNode], found: &mut Vec<Arc<Node>>) {
-        if !self.nodes.read().unwrap().is_empty() {
-            return;
-        }
         let mut prev = self.clone();
         for data in nodes {
             let node = self.append_node(&data.id, data.content.clone(), data.level);
